@@ -23,16 +23,21 @@ Lemma rp_dup_by_computation : forall l, rp_nodupb l = false -> ~ NoDup l.
 Proof. intros l H Hn. apply rp_nodupb_spec in Hn. congruence. Qed.
 
 (* message shorthands *)
-Definition rp_g (n : Z) : rp_msg := Build_rp_msg n RpGenuine RpEchoNone.   (* genuine *)
-Definition rp_ge (n : Z) : rp_msg := Build_rp_msg n RpGenuine RpEchoOk.    (* genuine, valid Echo *)
-Definition rp_f (n : Z) : rp_msg := Build_rp_msg n RpForged RpEchoNone.    (* forged, claims PIV n *)
+Definition rp_g (n : Z) : rp_msg := Build_rp_msg n RpGenuine RpEchoNone RpRequest. (* genuine *)
+Definition rp_ge (n : Z) : rp_msg := Build_rp_msg n RpGenuine RpEchoOk RpRequest.  (* genuine, valid Echo *)
+Definition rp_f (n : Z) : rp_msg := Build_rp_msg n RpForged RpEchoNone RpRequest.  (* forged, claims PIV n *)
+(* responses carrying a Partial IV (notifications): genuine / forged *)
+Definition rp_n (n : Z) : rp_msg := Build_rp_msg n RpGenuine RpEchoNone RpResponse.
+Definition rp_nf (n : Z) : rp_msg := Build_rp_msg n RpForged RpEchoNone RpResponse.
 
 (* the variants with exactly one repair missing *)
-Definition rp_no_bitidx : rp_variant := Build_rp_variant false true true true true.
-Definition rp_no_shguard : rp_variant := Build_rp_variant true false true true true.
-Definition rp_no_nooverwrite : rp_variant := Build_rp_variant true true false true true.
-Definition rp_no_rbflag : rp_variant := Build_rp_variant true true true false true.
-Definition rp_no_arm : rp_variant := Build_rp_variant true true true true false.
+Definition rp_no_bitidx : rp_variant := Build_rp_variant false true true true true true true.
+Definition rp_no_shguard : rp_variant := Build_rp_variant true false true true true true true.
+Definition rp_no_nooverwrite : rp_variant := Build_rp_variant true true false true true true true.
+Definition rp_no_rbflag : rp_variant := Build_rp_variant true true true false true true true.
+Definition rp_no_arm : rp_variant := Build_rp_variant true true true true false true true.
+Definition rp_no_resp_rb : rp_variant := Build_rp_variant true true true true true false true.
+Definition rp_no_resp_nowrite : rp_variant := Build_rp_variant true true true true true true false.
 
 (* ---- the code as found ---- *)
 
@@ -104,6 +109,34 @@ Proof. exists [rp_g 0; rp_f 50; rp_g 1]. vm_compute. intro H; discriminate H. Qe
 Theorem rp_no_arm_refuted :
   exists h, ~ NoDup (rp_accepted rp_no_arm 32 false rp_init h).
 Proof. exists [rp_g 5; rp_g 5]. apply rp_dup_by_computation. vm_compute. reflexivity. Qed.
+
+(* an endpoint that also serves the peer's requests: a forged response (right token, any
+   claimed Partial IV) marks that number as seen; the peer's genuine request 9 is then rejected *)
+Theorem rp_no_resp_rb_refuted :
+  exists h,
+    rp_genuine_verdicts h (fst (rp_run rp_no_resp_rb 32 false rp_init h)) <>
+    fst (rp_run rp_no_resp_rb 32 false rp_init (filter rp_is_genuine h)).
+Proof. exists [rp_g 5; rp_nf 9; rp_g 9]. vm_compute. intro H; discriminate H. Qed.
+
+(* a plain client (context in its initial state): one forged response claiming the Partial IV
+   2^40-1 leaves that number in last_seq, and every later genuine notification is dropped *)
+Theorem rp_no_resp_nowrite_refuted :
+  exists h,
+    rp_genuine_verdicts h (fst (rp_run rp_no_resp_nowrite 32 true rp_init h)) <>
+    fst (rp_run rp_no_resp_nowrite 32 true rp_init (filter rp_is_genuine h)).
+Proof. exists [rp_nf (2 ^ 40 - 1); rp_n 7]. vm_compute. intro H; discriminate H. Qed.
+
+(* the same two for the code as found *)
+Theorem rp_orig_forged_response_refuted :
+  exists h1 h2,
+    rp_genuine_verdicts h1 (fst (rp_run rp_orig 32 true rp_init h1)) <>
+      fst (rp_run rp_orig 32 true rp_init (filter rp_is_genuine h1)) /\
+    rp_genuine_verdicts h2 (fst (rp_run rp_orig 32 true rp_init h2)) <>
+      fst (rp_run rp_orig 32 true rp_init (filter rp_is_genuine h2)).
+Proof.
+  exists [rp_ge 5; rp_nf 9; rp_g 9], [rp_nf (2 ^ 40 - 1); rp_n 7]. vm_compute.
+  split; intro H; discriminate H.
+Qed.
 
 (* ---- the same histories on the repaired code (non-vacuity of the positive theorems) ---- *)
 
